@@ -2,7 +2,7 @@
    evaluation over the finite state space, lifted to all states because inv_b pins the byte
    counter to the _set flag), hence holds in every reachable state; at quiescent states it
    gives readable = wanted.  v0: refutation witnesses by evaluation. *)
-From PV Require Import Bytes C24.
+From PV Require Import Bytes C24 C24_gen.
 Open Scope Z_scope.
 
 Lemma fb_ok (P : bool -> bool) : fb P = true -> forall b, P b = true.
@@ -145,6 +145,10 @@ Proof.
   - injection H as <-. exact R.
   - destruct (step s l) as [t|] eqn:E; [|discriminate]. exact (IH t s' (r_step s0 s l t R E) H).
 Qed.
+
+(* the source has the shape the model assumes (gen_shape is regenerated from the AST on every run) *)
+Lemma shape_ok : gen_shape = assumed_shape.
+Proof. reflexivity. Qed.
 
 (* ---- v0: the unsynchronised code ---------------------------------------------------------- *)
 
